@@ -69,7 +69,26 @@ def impl(case):
         return {"err": "KeyError"}
     except RecursionError:
         return {"err": "RecursionError"}
-    return {"log": log, "plan": [int(x[1:]) for x in ec.plan]}
+    out = {"log": log, "plan": [int(x[1:]) for x in ec.plan]}
+    # a SECOND step on the same controller (as run_single_step starts it: reset, plan from the roots), in which every
+    # statement runs and nothing aborts or requests: whatever the first step left behind must not show
+    log2 = []
+    case2 = dict(case, target=[["run", []]] * case["n"])
+    try:
+        ec.reset()
+        ec.update_plan(ph, real_roots(case, ph))
+        for _ in ec(ph, Target(case2, log2)):
+            pass
+        out["second"] = {"log": log2}
+    except Exception as e:
+        out["second"] = {"err": type(e).__name__}
+    return out
+
+
+def normalise(out):
+    if isinstance(out, dict):
+        return {k: v for k, v in out.items() if k != "second"}
+    return out
 
 
 def model_input(case):
@@ -93,6 +112,21 @@ def closure(deps, ids):
 
 
 def oracle(case, out):
+    r = oracle_step(case, out)
+    if r is not None or "second" not in out:
+        return r
+    n = case["n"]
+    if not all(d < n for ds in case["deps"] for d in ds):
+        return None
+    r2 = oracle_step(dict(case, target=[["run", []]] * n), out["second"])
+    if r2 is not None:
+        return {"what": "second step on the same controller (after a step that " +
+                        ("was aborted" if "abort" in case["target"] else "completed") + "): " + r2["what"],
+                "sig": "second-step-" + r2.get("sig", "")}
+    return None
+
+
+def oracle_step(case, out):
     n = case["n"]
     deps = case["deps"]
     wf = all(d < n for ds in deps for d in ds)
